@@ -295,8 +295,12 @@ func c14Denotes(d *route.RouteDef, t *c14Tag, cs *c14Case, hostport string) stri
 		}
 	}
 	got := d.Tags
-	// tags travel as one comma separated list: a tag containing a comma cannot be told apart from two tags
-	if strings.Join(got, ",") != strings.Join(wantTags, ",") && !(len(got) == 0 && strings.Join(wantTags, ",") == "") {
+	// tag by tag: a registered tag "a,b" is not the two tags "a" and "b" (a manual 'route del tags "a"' would hit it)
+	same := len(got) == len(wantTags)
+	for i := 0; same && i < len(got); i++ {
+		same = got[i] == wantTags[i]
+	}
+	if !same && !(len(got) == 0 && strings.Join(wantTags, ",") == "") {
 		return fmt.Sprintf("tags %q want %q", got, wantTags)
 	}
 	if !eqOpts(d.Opts, wantOpts) {
